@@ -45,6 +45,21 @@ func rangeElem(fi *FnInfo, v ssa.Value) (slice ssa.Value, l *Loop, ok bool) {
 	if !isU || u.Op != token.MUL {
 		return nil, nil, false
 	}
+	if al, isAl := u.X.(*ssa.Alloc); isAl {
+		// the range variable spilled to a cell (its address is taken): the single store into the cell
+		var val ssa.Value
+		n := 0
+		for _, r := range *al.Referrers() {
+			if st, ok := r.(*ssa.Store); ok && st.Addr == ssa.Value(al) {
+				n++
+				val = st.Val
+			}
+		}
+		if n == 1 {
+			return rangeElem(fi, val)
+		}
+		return nil, nil, false
+	}
 	ia, isIA := u.X.(*ssa.IndexAddr)
 	if !isIA {
 		return nil, nil, false
